@@ -193,6 +193,22 @@ Theorem recheck_under_lock_observes_refresh : forall Q m ev sc members s0 coords
               tm_is_cached Q m ev (s_cache s') a = Some true.
 Proof. exact recheck_observes_refresh. Qed.
 
+(* The same on the meta tile path: when the other request left every tile of the meta tile of `a` accepted, the waiting
+   request - which had decided to create that meta tile - re-checks under the lock and fetches nothing of it: none of
+   its upstream requests covers a tile of that meta tile, and all its tiles stay accepted.  The meta tiles of the
+   requested tiles are equal or disjoint (meta tiles partition the grid). *)
+Theorem recheck_under_lock_observes_refresh_meta : forall Q m ev sc members s0 coords other a,
+  m_meta m = true ->
+  (forall b, In b coords -> members b = members a \/ forall x, In x (members b) -> ~ In x (members a)) ->
+  let s1 := fst (load_tile_coords Q m ev sc members s0 other) in
+  let s' := fst (load_after Q m ev sc members s0 coords other) in
+  (forall x, In x (members a) -> tm_is_cached Q m ev (s_cache s1) x = Some true) ->
+  s' = s0 \/
+  exists new, s_log s' = new ++ s_log s1 /\
+              (forall entry, In entry new -> forall x, In x (members a) -> ~ In x entry) /\
+              (forall x, In x (members a) -> tm_is_cached Q m ev (s_cache s') x = Some true).
+Proof. exact recheck_observes_refresh_meta. Qed.
+
 (* Also under such interleavings nothing is lost, and nothing changes while the upstream gives no cacheable answer
    (history_never_deletes / history_upstream_down_cache_constant range over ERace events as well). *)
 
@@ -206,6 +222,30 @@ Theorem seed_task_uses_its_own_threshold : forall Q sc members w t skip mains w'
     seed_walk Q (mkMgr None (Some t) (m_meta (w_mgr w)) (m_floor_store (w_mgr w)) (m_filter (w_mgr w)) (m_link (w_mgr w)))
               (w_env w) sc members (w_st w) skip mains = (w_st w', handed, ok).
 Proof. exact seed_task_own_threshold. Qed.
+
+(* Two seed tasks one after the other on one TileManager (two seeds of the same cache in seed.yaml), thresholds t1 and
+   t2: the observations are those of two walks, the first under t1 on the initial cache, the second under its own
+   threshold t2 - not under the t1 that the first task left behind - on the cache the first task left. *)
+Theorem consecutive_seed_tasks_each_use_their_own_threshold :
+  forall Q sc members w t1 skip1 mains1 t2 skip2 mains2 w2 obs,
+  m_refresh_before (w_mgr w) = None ->
+  run Q sc members w [ESeed (Some t1) skip1 mains1; ESeed (Some t2) skip2 mains2] = (w2, obs) ->
+  exists s1 h1 ok1 h2 ok2,
+    obs = [OSeed h1 ok1; OSeed h2 ok2] /\
+    seed_walk Q (mkMgr None (Some t1) (m_meta (w_mgr w)) (m_floor_store (w_mgr w)) (m_filter (w_mgr w)) (m_link (w_mgr w)))
+              (w_env w) sc members (w_st w) skip1 mains1 = (s1, h1, ok1) /\
+    seed_walk Q (mkMgr None (Some t2) (m_meta (w_mgr w)) (m_floor_store (w_mgr w)) (m_filter (w_mgr w)) (m_link (w_mgr w)))
+              (w_env w) sc members s1 skip2 mains2 = (w_st w2, h2, ok2) /\
+    expire_timestamp Q (w_mgr w2) (w_env w2) = ThrAt t2.
+Proof. exact seed_tasks_in_sequence. Qed.
+
+(* What the code does when the seeded cache has a refresh_before of its own: expire_timestamp consults the rule of the
+   cache first, so the walk of the task runs under the rule of the cache and the threshold of the task is not used. *)
+Theorem seed_task_on_cache_with_own_rule_uses_the_rule_of_the_cache : forall Q sc members w rc t skip mains w' o,
+  m_refresh_before (w_mgr w) = Some rc ->
+  step_event Q sc members w (ESeed (Some t) skip mains) = (w', o) ->
+  expire_timestamp Q (w_mgr w') (w_env w') = before_timestamp_from_options Q rc (w_env w).
+Proof. exact seed_task_cache_rule_first. Qed.
 
 (* bulk_meta_tiles (tiled sources, meta tiles downloaded tile by tile): a meta tile that contains a missing or stale
    tile - decided by the refresh rule, not by mere existence - is downloaded again tile by tile: every tile of it is
@@ -265,3 +305,15 @@ Theorem expire_timestamp_model_is_generated_from_source : forall Q m ev,
     (match m_refresh_before m with Some rc => before_timestamp_from_options Q rc ev | None => ThrNone end)
     (match m_expire m with Some t => ThrAt t | None => ThrNone end).
 Proof. exact expire_timestamp_as_generated. Qed.
+
+(* ... and before_timestamp_from_options (seed/config.py): which key decides ('time' over 'mtime' over the deltas) is
+   translated; its final statements (all five units handed to timestamp_before) and util/times.py timestamp_before
+   (one timedelta of all five units) are pinned whole. *)
+Theorem before_timestamp_model_is_generated_from_source : forall Q rc ev,
+  before_timestamp_from_options Q rc ev =
+  gen_before_timestamp (is_some (rc_time rc))
+    (match rc_time rc with Some s => ThrAt (s * Q) | None => ThrNone end)
+    (rc_mtime rc)
+    (match ref_mtime ev with Some t => ThrAt t | None => ThrErr end)
+    (ThrAt (timestamp_before Q rc (now ev))).
+Proof. exact before_timestamp_as_generated. Qed.
